@@ -94,6 +94,9 @@ def _run(ctx, rid, func, node, title, thunk):
         got, want, desc = thunk()
     except NotSymbolic as exc:
         raise AnalysisError(f"{title}: expression is outside the symbolic-evaluation whitelist: {exc}") from exc
+    except (ValueError, TypeError, IndexError, KeyError) as exc:
+        # numpy refused the operation on the symbolic operands (e.g. shapes that do not broadcast): undecided
+        raise AnalysisError(f"{title}: `{src_of(node)[:90]}` cannot be evaluated on arrays of the documented shapes: {type(exc).__name__}: {str(exc)[:120]}") from exc
     diff = first_difference(got, want)
     if diff is None:
         ctx.ok(rid, f"{title}: {desc}", f"{func.module.relpath}:{node.lineno}")
@@ -193,6 +196,7 @@ def _fchk_pair(ctx, rid, label, writer_env_builder, reader_env_builder, shape, d
 
     def thunk():
         wenv = writer_env_builder(C)
+        apply_rebindings(prog, do, wenv, wc.lineno, ("signs", "permutation"))
         flat = _SplitEval(wenv, prog, do).eval(deref_local(do, wc, wenv, prog))
         flat = np.asarray(flat, dtype=object)
         if flat.ndim != 1:
@@ -260,6 +264,13 @@ def deref_local(func, expr, env, prog=None):
     return Sub().visit(copy.deepcopy(expr))
 
 
+def apply_rebindings(prog, func, env, before_line, names):
+    """Re-bindings `x = <expr of x>` of evaluation inputs between their definition and the use site."""
+    for st_ in sorted((n for n in func.own_nodes() if isinstance(n, ast.Assign) and len(n.targets) == 1 and isinstance(n.targets[0], ast.Name) and n.targets[0].id in names and n.lineno < before_line and n.targets[0].id in {x.id for x in ast.walk(n.value) if isinstance(x, ast.Name)}), key=lambda n: n.lineno):
+        env[st_.targets[0].id] = _SplitEval(env, prog, func).eval(st_.value)
+    return env
+
+
 def _mo_data(full):
     """A stand-in for `data.mo` whose alpha/beta blocks are the two halves of one symbolic matrix."""
     n = full.shape[1] // 2
@@ -324,7 +335,9 @@ def site_writer_conventions(ctx, rid):
                 src = _mo_data(full)[attr]
 
                 def thunk(e=e, f=f, src=src, sg=sg, perm=perm, full=full, dparam=dparam, pv=pv, sv=sv):
-                    got = _SplitEval({dparam: {"mo": _mo_data(full)}, pv: perm, sv: sg}, prog, f).eval(e)
+                    env = {dparam: {"mo": _mo_data(full)}, pv: perm, sv: sg}
+                    apply_rebindings(prog, f, env, e.lineno, (pv, sv))  # e.g. signs = signs.reshape(-1, 1)
+                    got = _SplitEval(env, prog, f).eval(e)
                     want = np.array([[sg[r] * src[perm[r], j] for j in range(src.shape[1])] for r in range(3)], dtype=object)
                     return got, want, "row r of the written block = signs[r] x source row permutation[r] (index with the permutation first, then scale)"
 
